@@ -262,6 +262,32 @@ package compactindexsized
 //@   modifies a
 //@   use szRoot(len(a)) && unfold(lo(len(a), 1))
 
+// ---- builder: collision detection (C04) ----
+// hashBucket reads len(entries) tuples, masks each hash to 24 bits and records it in a 2^24-bit bitmap; a hash whose bit is
+// already set is a collision (two keys of the bucket would be indistinguishable to Lookup). Loop invariant: the bit of every
+// hash exported so far is set and the exported hashes are pairwise distinct; so when the entries are handed to the sort,
+// ALL hashes of the bucket are pairwise distinct (call-site condition on sortWithCompare) - this is what makes
+// "every inserted key is found with ITS value" possible: Lookup returns the value of the entry with the key's hash.
+//@ spec func bitSet(bm []byte, h uint64) bool = (bm[h/8] >> (h%8)) & 1 == 1
+//@ func hashBucket
+//@   mode bv
+//@   requires rd != nil && len(bitmap) == 2097152 && ref(entries) != ref(bitmap) && valueSize <= 252
+//@   modifies entries, bitmap, consumed(rd)
+//@   fncall sortWithCompare requires forall k, l int :: 0 <= k && k < l && l < len(arg0) ==> arg0[k].Hash != arg0[l].Hash
+//@   loop 0 invariant 0 <= rangeidx0 && len(bitmap) == 2097152 && mask == 16777215
+//@   loop 0 invariant forall k int :: 0 <= k && k < rangeidx0 ==> entries[k].Hash <= 16777215 && bitSet(bitmap, entries[k].Hash)
+//@   loop 0 invariant forall k, l int :: 0 <= k && k < l && l < rangeidx0 ==> entries[k].Hash != entries[l].Hash
+
+// mine: tries hash domains until hashBucket reports no collision; every attempt hands hashBucket the full 2^24-bit bitmap
+// (hashBucket's precondition: a missing or shorter bitmap would switch the collision detection off or index out of range).
+//@ func (*tempBucket) mine
+//@   mode int
+//@   requires b != nil && b.file != nil && ctx != nil && b.records <= 1099511627776 && b.valueSize <= 252
+//@   modifies consumed(b.file), written(b.file)
+//@   ensures err == nil ==> len(entries) == int(b.records) && domain < attempts
+//@   loop 0 invariant len(entries) == int(b.records) && len(bitmap) == 2097152 && ref(entries) != ref(bitmap) && rd != nil && b.file != nil && b.valueSize <= 252
+//@   loop 1 invariant len(entries) == int(b.records) && len(bitmap) == 2097152 && ref(entries) != ref(bitmap) && rd != nil && b.file != nil && domain < attempts && b.valueSize <= 252
+
 // Top-level query. No precondition beyond a handle returned by Open. The call bucket.Lookup(key) cannot discharge the
 // preconditions of (*Bucket).Lookup above: NumEntries <= 2^24 is not checked by GetBucket (it is not needed for safety:
 // searchEytzinger only needs max <= 2^40), and the order hypotheses speak about the entries stored in the file.
